@@ -467,10 +467,20 @@ def part_namesake(ctx, shard):
         return ra, rb
 
     for expr in shard:
-        for how in ("foreign-registry", "stale-after-modify", "foreign-to-default"):
+        for how in ("foreign-registry", "stale-after-modify", "foreign-to-default", "second-namesake-target"):
             ra, rb = regs()
+            tgt0 = None
             if how == "foreign-registry":
                 src_reg, tgt = ra, Unit(expr, registry=rb)
+            elif how == "second-namesake-target":
+                # the same source object was converted to ANOTHER unit of the target's name just before (w9: a memo on the
+                # source Unit keyed by the target's name)
+                rc = UnitRegistry()
+                rc.add("code_length", 7.0, udims.length)
+                rc.add("code_mass", 0.5, udims.mass, prefixable=True)
+                rc.add("code_time", 4.0, udims.time)
+                rc.modify("pc", 2.0e16)
+                src_reg, tgt, tgt0 = ra, Unit(expr, registry=rb), Unit(expr, registry=rc)
             elif how == "stale-after-modify":
                 tgt = Unit(expr, registry=ra)  # built first ...
                 ra.modify("code_length", 40.0)  # ... then its registry moves on: x below is in the NEW unit
@@ -486,6 +496,8 @@ def part_namesake(ctx, shard):
                 x = mk([1.0, 3.0, 8.0], dtype, expr, shape, registry=src_reg)
                 s_src, s_tgt = float(x.units.base_value), float(tgt.base_value)
                 want_si = np.asarray(x.d, dtype=float) * s_src
+                if tgt0 is not None:
+                    attempt(lambda: (x.to(tgt0), x.units.get_conversion_factor(tgt0), x.units.get_conversion_factor(tgt0, x.dtype), x.to_value(tgt0)))
                 before = (x.tobytes(), world.unit_digest(x.units))
                 routes = {
                     "to": lambda: x.to(tgt),
